@@ -344,6 +344,7 @@ func main() {
 	race := fs.Bool("race", false, "dev: race analysis")
 	noReplay := fs.Bool("no-native", false, "skip native replay (debug)")
 	replayTags := fs.String("replay-tags", "", "dev: extra build tags for native replay")
+	like := fs.String("like", "", "dev: take patterns, harness dirs, overrides and package from this property's first run")
 	var params multiFlag
 	fs.Var(&params, "param", "dev: k=v")
 	var ovr multiFlag
@@ -392,6 +393,29 @@ func main() {
 			}}
 		if *patterns != "" {
 			prop.Patterns = strings.Split(*patterns, ",")
+		}
+		if *like != "" {
+			lp := registry[*like]
+			if lp == nil {
+				fmt.Fprintln(os.Stderr, "unknown property", *like)
+				os.Exit(2)
+			}
+			first := lp.Runs(*tier)[0]
+			prop.Patterns, prop.HarnessDirs, prop.ReplayTags = lp.Patterns, lp.HarnessDirs, lp.ReplayTags
+			for k, v := range first.Overrides {
+				if _, ok := om[k]; !ok {
+					om[k] = v
+				}
+			}
+			for k, v := range first.Params {
+				if _, ok := pm[k]; !ok {
+					pm[k] = v
+				}
+			}
+			lpkg := first.Pkg
+			if *pkg == "" {
+				*pkg = lpkg
+			}
 		}
 	} else {
 		prop = registry[id]
